@@ -835,6 +835,47 @@ class Runner:
                 self.fail("ChangeTarget.run_smc", "ChangeTarget.run_smc", "E[exp(lml)]", dict(idc, impl=ez, Z_new=Z2))
 
 
+
+        # ---------- ChangeTarget to a target that observes only a SUBSET of the previously observed
+        # addresses: the evidence estimate must be unbiased for the NEW target's normalizing constant
+        if len(prob.obs_addrs) >= 2:
+            keep = prob.obs_addrs[:1]
+            others_addrs = [a for a in prob.net.addrs if a not in keep]
+
+            def f_ct_sub(key, args, obs, obs_keep):
+                alg = self.alg(q, args, obs)
+                t2 = Target(prob.gf, args, _chm(keep, obs_keep))
+                new = ChangeTarget(alg, t2).run_smc(key)
+                return dict(lw=new.get_log_weights(), lml=new.get_log_marginal_likelihood_estimate(), choices=read(new.get_particles().get_choices(), self.all))
+
+            for okv in prob.net.values[keep[0]]:
+                ids = dict(ident, new_obs_subset={keep[0]: okv})
+                paths = self.explore("ct_sub", f_ct_sub, jargs, jobs, (_val(okv),), component="ChangeTarget.run_smc", op="ChangeTarget.run_smc", ident=ids)
+                if not isinstance(paths, list):
+                    continue
+                Zs = 0.0
+                for combo in itertools.product(*[prob.net.values[a] for a in others_addrs]):
+                    asg = dict(zip(others_addrs, combo))
+                    asg[keep[0]] = okv
+                    Zs += math.exp(prob.net.logp(asg, args))
+                ez, bad = 0.0, {}
+                for i, p in enumerate(paths):
+                    ctx.ev((ids, "ct_sub", i), nontrivial=True)
+                    ez += p.prob * math.exp(float(p.result["lml"]))
+                    for k in range(K):
+                        try:
+                            g = decode(self.all, p.result["choices"], index=k)
+                        except Exception as e:
+                            bad.setdefault("particle_shape", []).append(dict(msg=str(e)[:200]))
+                            break
+                        if g.get(keep[0]) != okv:
+                            bad.setdefault("constraint", []).append(dict(got=g.get(keep[0]), obs=okv))
+                self.flush(bad, "ChangeTarget.run_smc", "ChangeTarget.run_smc", ids, len(paths))
+                ctx.note("expectations")
+                if not close(ez, Zs):
+                    self.fail("ChangeTarget.run_smc", "ChangeTarget.run_smc", "E[exp(lml)]:subset_target", dict(ids, impl=ez, Z_new=Zs))
+
+
 def _run(tname, pname, algname, tier, seed):
     def run(ctx):
         Runner(ctx, PROBLEMS[tname], pname, algname, tier, seed).run()
